@@ -96,7 +96,7 @@ class C08:
             if tree["single"]:
                 materialise(base, [[name, tree["files"][0][1], tree["files"][0][2]]])
             else:
-                materialise(os.path.join(base, name), tree["files"], tree["dirs"])
+                materialise(os.path.join(base, name), tree["files"], tree["dirs"], tree.get("links", ()))
         root = os.path.join(A, name)
         outdir = os.path.join(scratch, "out")
         os.makedirs(outdir)
@@ -142,7 +142,7 @@ class C08:
         if tree["single"]:
             materialise(Cp, [[name, tree["files"][0][1], tree["files"][0][2]]])
         else:
-            materialise(os.path.join(Cp, name), tree["files"], tree["dirs"])
+            materialise(os.path.join(Cp, name), tree["files"], tree["dirs"], tree.get("links", ()))
         for dp, dns, fns in os.walk(Cp):
             for fn in fns:
                 fp = os.path.join(dp, fn)
@@ -359,8 +359,11 @@ def _apply_fs(op, sandbox):
     k = op["op"]
     if k == "add" or k == "rewrite":
         os.makedirs(os.path.dirname(path), exist_ok=True)
+        st = os.stat(path) if op.get("keep_mtime") and os.path.exists(path) else None
         with open(path, "wb") as fd:
             fd.write(content(op["cseed"], op["size"]))
+        if st is not None:
+            os.utime(path, ns=(st.st_atime_ns, st.st_mtime_ns))     # cp -p / rsync -t: new bytes, old timestamps
     elif k == "delete":
         if os.path.exists(path):
             os.remove(path)
@@ -383,7 +386,7 @@ class C09:
             "snapshot) are compared; non-trivial when the history has create p -> mutation under p -> another "
             "operation on p; distinct by the operation-kind sequence")
     required = ("steps_compared", "create_mutate_create", "repeat_creates_served_by_long_lived", "recheck_steps",
-                "rebuild_steps", "edit_steps", "magnet_steps")
+                "rebuild_steps", "edit_steps", "magnet_steps", "failing_operation_steps")
     assumptions = ("both executors install the same deterministic directory enumeration (enumeration order is C08's concern)",)
 
     @staticmethod
@@ -432,9 +435,10 @@ class C09:
                 to = rng.choice([0, 1, live[nm] // 2, live[nm] - 1])
                 live[nm] = to
                 return {"op": "shrink", "path": "p/" + nm, "to": to}
-            size = rng.choice([live[nm], live[nm] + 1, 77])
+            size = rng.choice([live[nm], live[nm], live[nm] + 1, 77])
             live[nm] = size
-            return {"op": "rewrite", "path": "p/" + nm, "size": size, "cseed": rng.randrange(1 << 30)}
+            return {"op": "rewrite", "path": "p/" + nm, "size": size, "cseed": rng.randrange(1 << 30),
+                    "keep_mtime": rng.random() < 0.5}
 
         hist.append(mk_create())
         # guarantee the interesting shape early
@@ -448,7 +452,8 @@ class C09:
                 nm = rng.choice(names)
                 fresh_id[0] += 1
                 hist.append({"op": "rebuild", "meta": m, "search": ".", "dest": f"dest{fresh_id[0]}", "via": "lib"})
-                hist.append({"op": "rewrite", "path": "p/" + nm, "size": live[nm], "cseed": rng.randrange(1 << 30)})
+                hist.append({"op": "rewrite", "path": "p/" + nm, "size": live[nm], "cseed": rng.randrange(1 << 30),
+                             "keep_mtime": rng.random() < 0.6})
                 fresh_id[0] += 1
                 hist.append({"op": "rebuild", "meta": m, "search": ".", "dest": f"dest{fresh_id[0]}",
                              "via": rng.choice(["lib", "cli"])})
@@ -456,6 +461,16 @@ class C09:
                 hist.append(mk_create())
         while len(hist) < nsteps:
             c = rng.random()
+            if rng.random() < 0.12:
+                # an operation that FAILS (refused / undecodable metafile): whatever it leaves behind in the process
+                # must not influence later operations
+                fresh_id[0] += 1
+                bad = rng.choice(["meta/unsafe.torrent", "meta/garbage.torrent"])
+                hist.append(rng.choice([
+                    {"op": "rebuild", "meta": bad, "search": ".", "dest": f"dest{fresh_id[0]}", "via": rng.choice(["lib", "cli"])},
+                    {"op": "recheck", "meta": bad, "content": "p", "via": "lib"},
+                    {"op": "magnet", "meta": bad}]))
+                continue
             if c < 0.28:
                 hist.append(mk_mut())
             elif c < 0.5:
@@ -484,9 +499,15 @@ class C09:
     @staticmethod
     def run(case, scratch):
         SA, SB = os.path.join(scratch, "SA"), os.path.join(scratch, "SB")
+        from ..ref import torrent as rt
+        unsafe = rt.build("..", files=[(("x", "leaf"), b"abc")], pl=16384, version=1)
         for sb in (SA, SB):
             materialise(os.path.join(sb, "p"), case["files"])
             os.makedirs(os.path.join(sb, "meta"))
+            with open(os.path.join(sb, "meta", "unsafe.torrent"), "wb") as fd:
+                fd.write(unsafe)
+            with open(os.path.join(sb, "meta", "garbage.torrent"), "wb") as fd:
+                fd.write(b"this is not bencoding at all")
         counters, viol = {}, []
         server = _Server()
         creates_served = 0
@@ -508,6 +529,8 @@ class C09:
                     return {"inconclusive": "executor error", "traceback": str(ra.get("harness_error") or rb_.get("harness_error"))[-1500:]}
                 steps += 1
                 counters[op["op"] + "_steps"] = counters.get(op["op"] + "_steps", 0) + 1
+                if op.get("meta", "").endswith(("unsafe.torrent", "garbage.torrent")):
+                    counters["failing_operation_steps"] = counters.get("failing_operation_steps", 0) + 1
                 if op["op"] == "create":
                     creates_served += 1
                     if seen_mut_after_create:
